@@ -112,7 +112,17 @@ func vpH_C09_iddiff() {
 	var ida, idb IRI
 	c1, c2 := vpAlnum(), vpAlnum()
 	vpAssume(c1 != c2)
-	switch vpChoice(3) {
+	s1, s2 := string([]byte{c1}), string([]byte{c2})
+	switch vpChoice(6) {
+	case 3: // a repeated query key: the values form a multiset
+		ida = IRI("https://h.ex/p?k=" + s1 + "&k=" + s1)
+		idb = IRI("https://h.ex/p?k=" + s1 + "&k=" + s2)
+	case 4:
+		ida = IRI("https://h.ex/p?k=" + s1 + "&k=" + s2 + "&k=" + s2)
+		idb = IRI("https://h.ex/p?k=" + s2 + "&k=" + s1 + "&k=" + s1)
+	case 5:
+		ida = IRI("https://h.ex/p?k=" + s1 + "&j=" + s2)
+		idb = IRI("https://h.ex/p?k=" + s2 + "&j=" + s1)
 	case 0:
 		ida = IRI("https://" + string([]byte{c1}) + ".ex/p")
 		idb = IRI("https://" + string([]byte{c2}) + ".ex/p")
